@@ -43,6 +43,10 @@ type Sched struct {
 	Cyclic  bool
 	WithErr bool
 	Offset  int // Sizes apply from this stream offset on; before it reads are full
+	// IdleEvery > 0: every IdleEvery-th call returns (0, nil) before anything else happens - allowed by
+	// the io.Reader contract ("callers should treat a return of 0 and nil as indicating that nothing
+	// happened"), and never twice in a row
+	IdleEvery int
 }
 
 var Full = Sched{Name: "full"}
@@ -97,6 +101,10 @@ func (s *Source) Read(p []byte) (int, error) {
 		return 0, s.Fail
 	}
 	if len(p) == 0 {
+		return 0, nil
+	}
+	if s.S.IdleEvery > 0 && s.NReads%s.S.IdleEvery == 0 {
+		s.ZeroNil++
 		return 0, nil
 	}
 	n := len(p)
